@@ -42,6 +42,13 @@ def simulated(rnd, i):
             u1, u2 = rnd.choice(solver_gen.TIME_UNITS), rnd.choice(solver_gen.TIME_UNITS)
             d2 = op['dt'] * rnd.choice([Fraction(1), Fraction(1, 2), Fraction(2)])
             _, err = outcome(lambda: Solver(b['pt']).run(b['q']('TimeInterval', d2, u1), b['q']('TimeInterval', d2 * rnd.randint(2, 5), u2)))
+        if err is None and i % 3 == 1:
+            # a history that REPLACED an earlier, longer one: reset, re-apply the initial conditions, simulate fewer instants
+            _, err = outcome(b['pt'].reset)
+            b['objs'][-1].angular_position = b['q']('AngularPosition', 0)
+            b['objs'][-1].angular_speed = b['q']('AngularSpeed', 0)
+            if err is None:
+                _, err = outcome(lambda: Solver(b['pt']).run(b['q']('TimeInterval', op['dt'], op['dt_unit']), b['q']('TimeInterval', op['dt'] * 2, op['dt_unit'])))
         if err is None:
             return b
     raise Machinery('no simulated powertrain')
